@@ -273,6 +273,9 @@ class SccContext:
             processed_caption.new_caption_text()
 
       elif processed_caption is not None:
+        if processed_caption.get_current_text() is not None and processed_caption.get_current_text().get_style_properties():
+          # a text emptied by backspaces keeps the styles it was given: do not reuse it
+          processed_caption.new_caption_text()
         processed_caption.append_text(" ")
 
       self.current_color = color
